@@ -1,7 +1,8 @@
 (* C11 -- read-only handles and /PROTECT levels are never bypassed.
    Only the property theorems; model in C11/Protect.v, public API and source facts in Gen/PublicApi.v.
-   `exec ag ug`: ag = the affix calls test access mode and protection (read from the source: true on the frozen tree),
-   ug = gd_rename(GD_REN_UPDB) tests the protection of the fragments whose fields it rewrites (false: open finding). *)
+   `exec ag ug sg`: ag = the affix calls test access mode and protection (read from the source: true on the frozen tree),
+   ug = gd_rename(GD_REN_UPDB) tests the protection of the fragments whose fields it rewrites (false: open finding),
+   sg = a write-mode gd_seek tests the access mode (false: open finding, the repository's tests rely on it). *)
 From Coq Require Import List String Bool Arith.
 From GD Require Import Gen.PublicApi C11.Protect C11.ProtectProofs.
 Import ListNotations.
@@ -13,31 +14,36 @@ Proof. exact mutators_guarded_l. Qed.
 Theorem affix_calls_guarded_in_source : gen_affix_guarded = true.
 Proof. exact gen_affix_guarded_true. Qed.
 
-Definition rdonly_inert_statement (ag ug : bool) : Prop :=
-  forall s c, rw s = false -> exec ag ug s c = (RAccMode, s).
-Theorem rdonly_inert : forall ug s c, rw s = false -> exec true ug s c = (RAccMode, s).
-Proof. intros ug s c H. apply rdonly_inert_l; [exact H|right; reflexivity]. Qed.
-Theorem rdonly_inert_as_built : rdonly_inert_statement gen_affix_guarded gen_updb_guarded.
+Definition rdonly_inert_statement (ag ug sg : bool) : Prop :=
+  forall s c, rw s = false -> exec ag ug sg s c = (RAccMode, s).
+Theorem rdonly_inert : forall ug, rdonly_inert_statement true ug true.
+Proof. intros ug s c H. apply rdonly_inert_l; [exact H|right; reflexivity|right; reflexivity]. Qed.
+Theorem rdonly_inert_partial : forall s c, rw s = false -> is_seekw_call c = false -> gen_exec s c = (RAccMode, s).
 Proof. exact rdonly_inert_gen. Qed.
-Theorem rdonly_inert_refuted_old_affix : exists s c, rw s = false /\ exec false true s c <> (RAccMode, s).
+Theorem rdonly_inert_refuted : ~ rdonly_inert_statement true true false.
+Proof. intro H. destruct rdonly_inert_refuted_seekw as [s [c [H1 H2]]]. exact (H2 (H s c H1)). Qed.
+Theorem rdonly_inert_refuted_old_affix : exists s c, rw s = false /\ exec false true true s c <> (RAccMode, s).
 Proof. exact rdonly_inert_refuted_unguarded. Qed.
 
-Definition protect_respected_statement (ag ug : bool) : Prop :=
-  forall s c, is_protect_call c = false -> unchanged_protected s (snd (exec ag ug s c)).
-Theorem protect_respected : protect_respected_statement true true.
-Proof. intros s c H. apply protect_respected_l; [exact H|right; reflexivity|right; reflexivity]. Qed.
+Definition protect_respected_statement (ag ug sg : bool) : Prop :=
+  forall s c, is_protect_call c = false -> unchanged_protected s (snd (exec ag ug sg s c)).
+Theorem protect_respected : forall sg, protect_respected_statement true true sg.
+Proof. intros sg s c H. apply protect_respected_l; [exact H|right; reflexivity|right; reflexivity]. Qed.
 Theorem protect_respected_partial : forall s c, is_protect_call c = false -> is_updb_call c = false ->
   unchanged_protected s (snd (gen_exec s c)).
 Proof. exact protect_respected_gen. Qed.
-Theorem protect_respected_refuted : ~ protect_respected_statement true false.
+Theorem protect_respected_refuted : ~ protect_respected_statement true false true.
 Proof.
   intro H. destruct protect_respected_refuted_updb as [s [c [H1 [_ H2]]]]. exact (H2 (H s c H1)).
 Qed.
-Theorem protect_respected_refuted_old_affix : exists s c, is_protect_call c = false /\ ~ unchanged_protected s (snd (exec false true s c)).
+Theorem protect_respected_refuted_old_affix : exists s c, is_protect_call c = false /\ ~ unchanged_protected s (snd (exec false true true s c)).
 Proof. exact protect_respected_refuted_unguarded. Qed.
 
-Theorem derived_chain_write_refused : forall ag ug s frags g, rw s = true -> p_dat (prot_of s g) = true ->
-  exec ag ug s (CPutData (chain frags (FRaw g))) = (RProtected, s).
+Theorem seek_write_refused : forall ag ug sg s frags g, rw s = true -> p_dat (prot_of s g) = true ->
+  exec ag ug sg s (CSeekWrite (chain frags (FRaw g))) = (RProtected, s).
+Proof. intros ag ug sg s frags g Hr Hp. simpl. rewrite put_leaf_chain, Hp. destruct (sg && negb (rw s)) eqn:E; [rewrite Hr in E; destruct sg; discriminate|reflexivity]. Qed.
+Theorem derived_chain_write_refused : forall ag ug sg s frags g, rw s = true -> p_dat (prot_of s g) = true ->
+  exec ag ug sg s (CPutData (chain frags (FRaw g))) = (RProtected, s).
 Proof. exact chain_write_refused. Qed.
 Theorem derived_chain_leaf : forall frags g, put_leaf (chain frags (FRaw g)) = Some g.
 Proof. exact put_leaf_chain. Qed.
